@@ -11,7 +11,7 @@ dE/d ln(mu2_to) == - sum_j gamma_0j aem^j * E.
 from fractions import Fraction
 
 from .common import *  # noqa
-from symx.solver import explore, prove_zero
+from symx.solver import explore, prove_zero, prove_equal
 from symx import harness as H
 
 MOD = "harness.C07"
@@ -107,7 +107,7 @@ def case_qcd_symbolic(log, order, shape=None):
             ns.as4_ei = as4
         E = Cx.lift(E)
         rhs = _ode_rhs(gam, bet, a1)
-        v = prove_zero(E.re.tangent() - E.re.novar() * rhs, "dE/da1 == gamma(a1)/beta(a1) * E   (%s)" % EXACT[order])
+        v = prove_equal(E.re.tangent(), E.re.novar() * rhs, "dE/da1 == gamma(a1)/beta(a1) * E   (%s)" % EXACT[order])
         log.decide(v, key="%s:ode" % EXACT[order], replay=(MOD, "replay_qcd", {"order": order, "shape": shape}), sampler=_sampler)
         v = prove_zero(E.im, "Im E == 0 for real gamma (%s)" % EXACT[order])
         log.decide(v, key="%s:imag" % EXACT[order], replay=(MOD, "replay_qcd", {"order": order, "shape": shape}), sampler=_sampler)
